@@ -221,6 +221,9 @@ func VerifHarness_C14_footprint() {
 	sim.RunCycle()
 	vAbstractArith(false)
 	vPrune(true)
+	// the simulator is reset and used again, as a tournament driver does
+	sim.Reset()
+	vAssert("respawned", sim.SpawnWarrior(0, off) == nil)
 	vAssert("no-shared-state-written", vSharedWrites() == 0)
 	vAssert("configuration-unchanged", cfg == cfg0)
 	for i := range shared.Code {
